@@ -3,6 +3,7 @@ from __future__ import annotations
 
 import json
 import random
+import re
 import time
 
 from . import common, k2, tr_grammar
@@ -139,6 +140,123 @@ CLASSIFY = [("RsV", 'OReg "R" "s"'), ("RddV", 'OReg "R" "dd"'), ("PtN", 'ONewReg
             ("7ULL", 'ONum (7) false "ULL"'), ("R29", 'OExplicit "R29" false'), ("C9", 'OExplicit "C9" false'), ("R15", 'OExplicit "R15" false')]
 
 
+# ---------------------------------------------------------------- reference parser (lib/CParse.v, proved unambiguous)
+TOKEN_RE = re.compile(r"[A-Za-z0-9_]+|<<|>>|<=|>=|==|!=|&&|\|\||[-+*/%<>&^|~!?:()=]")
+BIN_SPELL = dict(SPELL)
+UN_SPELL = dict(UN)
+LEAF_TEXT = {t: s for s, t in LEAVES}
+LEAF_TEXT['(EOp (OReg "R" "d"))'] = "RdV"
+
+
+def coq_tokens(text):
+    out = []
+    for t in TOKEN_RE.findall(text):
+        if t == "(":
+            out.append("TLP")
+        elif t == ")":
+            out.append("TRP")
+        elif t == "?":
+            out.append("TQ")
+        elif t == ":":
+            out.append("TColon")
+        elif re.match(r"[A-Za-z0-9_]", t):
+            out.append(f'TLeaf (L{"Num" if t[0].isdigit() else "Id"} "{t}")')
+        else:
+            out.append(f'TOp "{t}"')
+    return "[" + "; ".join(out) + "]"
+
+
+def sexp(term):
+    """tree2ast term text -> nested lists"""
+    toks = re.findall(r'"[^"]*"|\(|\)|[^\s()]+', term)
+    pos = 0
+
+    def rd():
+        nonlocal pos
+        t = toks[pos]
+        pos += 1
+        if t == "(":
+            l = []
+            while toks[pos] != ")":
+                l.append(rd())
+            pos += 1
+            return l
+        return t
+    return rd()
+
+
+def unsexp(x):
+    return x if isinstance(x, str) else "(" + " ".join(unsexp(y) for y in x) + ")"
+
+
+def show_of(x):
+    """the `show` text of lib/CParse.v for a Lark structure; None when outside the reference language"""
+    if not isinstance(x, list):
+        return None
+    if x[0] == "EOp":
+        return LEAF_TEXT.get(unsexp(x))
+    if x[0] == "EBin" and x[1] in BIN_SPELL:
+        a, b = show_of(x[2]), show_of(x[3])
+        return a and b and f"({BIN_SPELL[x[1]]} {a} {b})"
+    if x[0] == "EUn" and x[1] in UN_SPELL:
+        a = show_of(x[2])
+        return a and f"({UN_SPELL[x[1]]} {a})"
+    if x[0] == "ECond":
+        c, a, b = show_of(x[1]), show_of(x[2]), show_of(x[3])
+        return c and a and b and f"(?: {c} {a} {b})"
+    if x[0] == "EAssign" and x[1] == "AAssign":
+        a, b = show_of(x[2]), show_of(x[3])
+        return a and b and f"(= {a} {b})"
+    return None
+
+
+REF_HEAD = """From Coq Require Import List String NArith.
+From RZ.lib Require Import CParse.
+Import ListNotations.
+Local Open Scope string_scope.
+Fixpoint failing {A} (f : A -> bool) (l : list A) (i : N) : list N :=
+  match l with [] => [] | x :: t => if f x then failing f t (i + 1) else i :: failing f t (i + 1) end.
+Definition agree (c : list token * string) : bool :=
+  match option_map show (parse_c11 (fst c)) with Some s => String.eqb s (snd c) | None => false end.
+Definition cases : list (list token * string) := [
+"""
+
+
+def reference_compare(cases, base):
+    """cases whose text lies in the reference language: tokens -> lib/CParse.parse_c11 (Coq) vs the structure Lark produced.
+    Returns (number compared, list of failing case indices, error text)"""
+    rows, idx = [], []
+    for i, (text, exp, tag) in enumerate(cases):
+        if tag not in ("pair", "random") or "_t)" in text or "++" in text:
+            continue
+        r = base.get(i, {})
+        if not r.get("ok") or not r.get("ast"):
+            continue
+        try:
+            prog = sexp(r["ast"])          # (SCons (SExpr e) SNil)
+            sh = show_of(prog[1][1])
+        except Exception:
+            sh = None
+        if sh is None:
+            sh = "<outside the reference language: " + str(r.get("ast"))[:60].replace('"', "'") + ">"
+        body = text.strip()[1:-1].strip().rstrip(";")
+        rows.append(f'({coq_tokens(body)}, "{sh}")')
+        idx.append(i)
+    files = {}
+    shard = max(50, -(-len(rows) // common.NPROC))
+    for k in range(0, len(rows), shard):
+        files[f"ref_{k // shard:03d}"] = REF_HEAD + ";\n".join(rows[k:k + shard]) + "\n].\nEval vm_compute in (failing agree cases 0).\n"
+    ok, outs, err = common.run_case_files("C17", files)
+    if not ok:
+        return len(rows), [], err
+    bad = []
+    for name in sorted(outs):
+        k = int(name.split("_")[1]) * shard
+        vals = common.coq_printed_values(outs[name])
+        bad += [idx[k + int(j)] for j in re.findall(r"\d+", vals[0].replace("%N", ""))]
+    return len(rows), bad, ""
+
+
 def run(tier):
     res = Result("C17", tier)
     rnd = random.Random(common.seed() + 17)
@@ -180,8 +298,42 @@ def run(tier):
             broken.append(Broken("correspondence", "K7 harness", out[-1200:]))
             break
         runs[hs] = {r["id"]: r for r in json.loads(out.split("@@RESULT@@", 1)[1])["results"]}
+    # the corpus path (Parser.parse_single: a fresh Lark object per instruction) on texts whose ambiguity resolution can tie,
+    # and on shipped behaviours; compared across hash seeds and with the reused Compiler.parser
+    from . import corpus
+    tie_texts = [c[0] for c in cases if c[2] == "stmt"] + ["{ RdV = RsV---RtV; }", "{ RdV = RsV+++RtV; }", "{ { RdV = 1; }; { ReV = 2; }; }",
+                                                            "{ { { RdV = 1; }; }; ; }", "{ if (RsV) { RdV = 1; }; else_ = 1; }", "{ RdV = RsV - -RtV; }", "{ RdV = -(-RsV); }"]
+    cnames = corpus.names()
+    csample = rnd.sample(cnames, 24 if tier == "quick" else 400)
+    jobs2 = [{"id": i, "op": "parse_single", "code": t} for i, t in enumerate(tie_texts)]
+    jobs2 += [{"id": len(tie_texts) + i, "op": "parse_single", "name": n} for i, n in enumerate(csample)]
+    runs2 = {}
+    for hs in seeds + (["5"] if tier == "quick" else ["3", "4", "5"]):
+        req = {"jobs": jobs2, "signatures": False, "nproc": common.NPROC}
+        rc, out = common.sh([common.PY, str(common.VERIF / "tools/vt/pyside.py")], cwd=common.REPO, env={"PYTHONPATH": str(common.REPO), "PYTHONHASHSEED": hs},
+                            input=json.dumps(req), timeout=3000)
+        if "@@RESULT@@" not in out:
+            broken.append(Broken("correspondence", "K7 harness (parse_single path)", out[-1200:]))
+            break
+        runs2[hs] = {r["id"]: r for r in json.loads(out.split("@@RESULT@@", 1)[1])["results"]}
     wall = round(time.time() - t0, 1)
     fails, kn = [], {}
+    hs0 = next(iter(runs2), None)
+    for j in jobs2:
+        what = j.get("code") or ("shipped behaviour " + j["name"])
+        r0 = runs2.get(hs0, {}).get(j["id"], {})
+        if r0.get("stage") == "harness":
+            broken.append(Broken("correspondence", "K7 harness (parse_single path)", str(r0.get("msg"))[-600:]))
+            break
+        if r0.get("ok") and r0.get("tree") != r0.get("tree_reused_parser"):
+            fails.append({"text": what, "why": "Parser.parse_single (fresh parser object, corpus path) and the reused Compiler.parser give different trees for the same text",
+                          "expected": str(r0.get("tree_reused_parser"))[:600], "got": str(r0.get("tree"))[:600], "tag": "paths", "job": j})
+        for hs, rr in runs2.items():
+            r2 = rr.get(j["id"], {})
+            if r2.get("ok") != r0.get("ok") or r2.get("tree") != r0.get("tree"):
+                fails.append({"text": what, "why": f"Parser.parse_single gives different trees under PYTHONHASHSEED={hs0} and {hs}",
+                              "expected": str(r0.get("tree"))[:600], "got": str(r2.get("tree"))[:600], "tag": "hashseed", "job": j, "seeds": [hs0, hs]})
+                break
     base = runs.get(seeds[0], {})
     n_ok = 0
     for i, (text, exp, tag) in enumerate(cases):
@@ -211,6 +363,15 @@ def run(tier):
                 fails.append(f)
         else:
             n_ok += 1
+    n_ref, ref_bad, ref_err = (0, [], "")
+    if base and model_ok:
+        with common.Lock():
+            n_ref, ref_bad, ref_err = reference_compare(cases, base)
+        if ref_err:
+            broken.append(Broken("correspondence", "K7 reference parser case files", ref_err[-1200:]))
+        for i in ref_bad:
+            fails.append({"text": cases[i][0], "why": "Lark's structure differs from the structure the proved reference parser (lib/CParse.v over the regenerated tower) assigns",
+                          "expected": "parse_c11 of the token list", "got": base[i].get("ast"), "tag": cases[i][2]})
     for kid, text in kn.items():
         res.known(f"{kid}: {known[kid]['what']} -- witness {text}")
     for f in fails[:1]:
@@ -222,13 +383,13 @@ def run(tier):
                        "tools/vt/tr_grammar.py, tree2ast.py; the reference structure is the generator's own AST printed with minimal parentheses by C precedence/associativity"]
     res.coverage = {"obligations": binfo["obligations"], "discharged": binfo["discharged"] if model_ok else 0, "checker_cmd": binfo["checker_cmd"],
                     "trusted_base": res.assumptions, "print_assumptions": binfo["assumptions"], "translated": meta,
-                    "theorems": ["C17_tower_matches_c11", "C17_else_rule_first", "C17_cast_and_unary_shapes", "C17_terminal_priorities", "C17_operand_terminals"],
-                    "evaluations": len(cases) * len(seeds), "distinct_nontrivial": n_ok,
+                    "reference_parser_compared": n_ref, "theorems": ["C17_reference_roundtrip", "C17_reference_unambiguous", "C17_tower_matches_c11", "C17_else_rule_first", "C17_cast_and_unary_shapes", "C17_terminal_priorities", "C17_operand_terminals"],
+                    "evaluations": len(cases) * len(seeds) + len(jobs2) * len(runs2), "distinct_nontrivial": n_ok,
                     "rule": "every ordered pair of binary operators at equal/adjacent precedence in both groupings (quick: 160 sampled), unary vs binary, random expression "
                             "trees (nesting <= 6) printed with minimal parentheses, statement shapes (dangling else, nesting, statement-expressions, & vs &&, cast vs "
                             "parenthesis), operand classification table; each text parsed under several PYTHONHASHSEED values; non-trivial = texts whose Lark tree maps to "
                             "exactly the generating AST",
-                    "hash_seeds": seeds, "wall_s": wall, "samples": [{"text": cases[0][0], "expected": cases[0][1]}], "broken": [vars(x) for x in broken]}
+                    "hash_seeds": seeds, "parse_single_path": {"texts": len(tie_texts), "shipped_behaviours": len(csample), "hash_seeds": list(runs2)}, "wall_s": wall, "samples": [{"text": cases[0][0], "expected": cases[0][1]}], "broken": [vars(x) for x in broken]}
     return res.finish()
 
 
@@ -238,6 +399,16 @@ def replay(path):
     if not inp:
         print(json.dumps(d.get("broken"), indent=1)[:3000])
         return 1
+    if inp.get("job"):
+        for hs in inp.get("seeds", ["0"]):
+            req = {"jobs": [inp["job"]], "signatures": False, "nproc": 1}
+            rc, out = common.sh([common.PY, str(common.VERIF / "tools/vt/pyside.py")], cwd=common.REPO, env={"PYTHONPATH": str(common.REPO), "PYTHONHASHSEED": hs},
+                                input=json.dumps(req), timeout=600)
+            r = json.loads(out.split("@@RESULT@@", 1)[1])["results"][0]
+            print(f"PYTHONHASHSEED={hs} parse_single:", str(r.get("tree"))[:400])
+            print(f"PYTHONHASHSEED={hs} reused parser:", str(r.get("tree_reused_parser"))[:400])
+        print("recorded:", inp["why"])
+        return 0
     r = k2.run_python([{"id": 0, "op": "parse", "code": inp["text"]}], want_sig=False)["results"][0]
     print("text:", inp["text"])
     print("now     :", r.get("ast") or r)
